@@ -159,6 +159,60 @@ def run_case(case):
     return res
 
 
+def run_zst_case(case):
+    """validator.zstdgenerator: transitions come from ZoneSpecifier on tools/zonedbpy, fields from pytz."""
+    import logging
+    logging.disable(logging.CRITICAL)
+    import pytz
+    from validator.zstdgenerator import TestDataGenerator
+    from zonedb.zone_specifier import ZoneSpecifier
+    from zonedbpy import zone_infos, zone_policies
+    zone, start, until = case["zone"], case["start"], case["until"]
+    res = {"case": case, "problems": [], "n_items": 0, "qualifying": [], "late": 0}
+    info = zone_infos.ZONE_INFO_MAP[zone]
+    try:
+        g = TestDataGenerator({zone: info}, zone_policies.ZONE_POLICY_MAP, start, until)
+        data, n = g.create_test_data()
+    except BaseException as e:
+        res["problems"].append(("generator-exception", "%s: %s" % (type(e).__name__, str(e)[:200])))
+        return res
+    items = data.get(zone, [])
+    res["n_items"] = len(items)
+    tz = pytz.timezone(zone)
+    epochs = [it.epoch for it in items]
+    if epochs != sorted(epochs) or len(set(epochs)) != len(epochs):
+        res["problems"].append(("order", "items are not strictly sorted by epoch seconds"))
+    by_epoch = {it.epoch: it for it in items}
+    for it in items:
+        d = dtm.datetime.fromtimestamp(it.epoch + UNIX, UTC).astimezone(tz)
+        want = (d.year, d.month, d.day, d.hour, d.minute, d.second, int(d.utcoffset().total_seconds()), int(d.dst().total_seconds()))
+        got = (it.y, it.M, it.d, it.h, it.m, it.s, it.total_offset, it.dst_offset)
+        if got != want:
+            res["problems"].append(("item-fields", "item at epoch %d is %r, pytz says %r" % (it.epoch, got, want)))
+            break
+    zs = ZoneSpecifier(info)
+    for y in range(start, until):
+        zs.init_for_year(y)
+        for tr in zs.transitions:
+            if tr.startDateTime.y != y:
+                continue
+            e = tr.startEpochSecond
+            res["qualifying"].append(e)
+            a, b = by_epoch.get(e - 1), by_epoch.get(e)
+            if a is None or b is None or a.type != "A" or b.type != "B":
+                res["problems"].append(("unbracketed", "ZoneSpecifier transition at epoch %d of %d has no A/B item pair at the adjacent seconds" % (e, y)))
+                return res
+        have = set((it.y, it.M, it.d) for it in items if it.h < 3)
+        for m in range(1, 13):
+            if (y, m, 1) not in have and (y, m, 2) not in have:
+                res["problems"].append(("monthly-sample", "no item at the local start of %04d-%02d" % (y, m)))
+                return res
+        if not any(it.y == y and it.M == 12 and it.d == 31 and it.h == 23 for it in items) and \
+                not any((it.y, it.M, it.d) == (y + 1, 1, 1) for it in items):
+            res["problems"].append(("year-end-sample", "no item at %04d-12-31 23:00 local" % y))
+    return res
+
+
 def construct_cases(lib, rnd, n):
     """cases built from the library's own table: a transition close to the end of a year becomes the last thing in range"""
     out = []
@@ -250,6 +304,24 @@ def run(ctx):
         if "items" in res and res["items"]:
             rendered.append(res)
     ctx.count("cases_with_transition_in_last_interval", late)
+    # ---- validator.zstdgenerator on the checked-in zonedbpy ----
+    import pytz
+    sys_path_tools = os.path.join(vt.REPO, "tools")
+    import sys
+    if sys_path_tools not in sys.path:
+        sys.path.insert(0, sys_path_tools)
+    from zonedbpy import zone_infos as _zi
+    zst_zones = sorted(z for z in _zi.ZONE_INFO_MAP if z in pytz.all_timezones_set)
+    zsel = zst_zones if thorough else rnd.sample(zst_zones, 40)
+    zcases = [dict(lib="zst", zone=z, start=2000 + (i % 5), until=2038 if thorough else 2012 + (i % 20)) for i, z in enumerate(zsel)]
+    for res in vt.pmap(run_zst_case, zcases):
+        c = res["case"]
+        ctx.evaluations += res["n_items"]
+        ctx.count("cases_zstdgenerator")
+        for t in res["qualifying"]:
+            nt.add(("zst", c["zone"], t))
+        for kind, msg in res["problems"]:
+            ctx.violation("zst:%s" % kind, {"case": c}, "zstdgenerator %s [%d,%d): %s" % (c["zone"], c["start"], c["until"], msg))
     if late < 4:
         raise vt.HarnessError("too few cases with a transition in the last sampling interval: %d of %d" % (late, len(cases)))
     # ---- rendering ----
